@@ -706,7 +706,9 @@ EDGE_OPERANDS = ['1.', '0.', '5.e1', '.5', 'A\u0300', 'a\u203f', 'caf\u00e9', 'x
                  '(a)', '{}', 'this', '0x1F', 'e\u0301\u0301',
                  # identifier characters that are not \\w for Python (should the lexer ever accept them, the space handlers
                  # must know): Other_ID_Start, letterlike symbols, and a non-BMP letter
-                 '\u2118', '\u212ea', 'b\u309b', '\U00010400x', '\u00aa', '\u00b5m', '\u02ee']
+                 '\u2118', '\u212ea', 'b\u309b', '\U00010400x', '\u00aa', '\u00b5m', '\u02ee',
+                 # identifiers spelled with unicode escapes, and characters ES5 allows that the lexer tables may lack
+                 '\\u0061bc', 'a\\u0062', '\\u4e2d\\u6587', '\\u2160x', 'x\\u200c', '\u4e2d', '\ud55c', '\u2160']
 EDGE_FORMS = ['typeof %s;', 'void %s;', 'delete %s;', 'x = typeof %s == y;', 'x = %s in y;', 'x = y in %s;', 'x = %s instanceof y;',
               'x = y instanceof %s;', 'function f(){ return %s; }', 'throw %s;', 'x = new %s;', 'if (a) %s; else %s;',
               'do %s; while (%s);', 'for (var k in %s);', 'x = a + %s - %s;', 'x = a + +%s - -%s;', 'var v = %s, w = %s;',
